@@ -14,23 +14,23 @@ REPO = Path(os.environ.get("VERIF_REPO", "/repo"))
 _cache = {}
 
 
-def mir_functions(default_features=True, features=""):
+def mir_functions(default_features=True, features="", package="rcgen", target=("--lib",)):
     import mir
-    key = (default_features, features)
+    key = (default_features, features, package, tuple(target))
     if key not in _cache:
         t0 = time.time()
-        text = mir.dump_mir(REPO, default_features, features=features)
+        text = mir.dump_mir(REPO, default_features, features=features, package=package, target=target)
         _cache[key] = (mir.parse(text), time.time() - t0)
     return _cache[key]
 
 
-def run_obligations(ob_fns, label_prefix="", features=""):
+def run_obligations(ob_fns, label_prefix="", features="", package="rcgen", target=("--lib",)):
     import mir
     import dn
     import mir_replay
     records, viol, inc = [], [], []
     try:
-        fns, dump_s = mir_functions(True, features)
+        fns, dump_s = mir_functions(True, features, package, target)
     except Exception as e:
         return [], [], [f"MIR dump failed: {e}"]
     for ob_fn in ob_fns:
